@@ -1,7 +1,7 @@
 (* C12 - Statistics only accumulate; taking a snapshot changes nothing.  Statements only. *)
 From Coq Require Import List ZArith Bool.
 From Coq Require Import Sorted.
-From LP Require Import Trace.ZMap Trace.Concrete Trace.ConcreteFacts Trace.RefineLemmas Trace.Main Trace.Witness Trace.Stats Trace.Report Trace.LabelMono.
+From LP Require Import Trace.GenRun Trace.ZMap Trace.Concrete Trace.ConcreteFacts Trace.RefineLemmas Trace.Main Trace.Witness Trace.Stats Trace.Report Trace.LabelMono.
 Import ListNotations.
 Open Scope Z_scope.
 
@@ -73,3 +73,10 @@ Theorem C12_snapshot_entry_is_label_hits :
     In (lbl, ents) (get_stats codes (run codes tick start ops)) -> In (l, h, t) ents ->
     h = label_hits codes (run codes tick start ops) lbl l.
 Proof. exact snapshot_entry_is_label_hits. Qed.
+
+(* The tie to the source: the machine regenerated from line_profiler/_line_profiler.pyx on this run (Gen/TraceCore.v:
+   the trace callback translated statement by statement, compute_line_hash, enable/disable, the registration loop and
+   get_stats read off the source) computes exactly `run`, the model the theorems above are about. *)
+Theorem C12_model_is_generated_core :
+  forall codes tick start ops, gen_run codes tick start ops = run codes tick start ops.
+Proof. exact gen_run_eq. Qed.
